@@ -52,6 +52,7 @@ type SimConn struct {
 	rxErr    error
 	closed   bool
 	writeErr error
+	stall    chan struct{} // non-nil: writes block until it is closed
 	notify   chan struct{}
 	seq      uint64
 
@@ -177,9 +178,30 @@ func (c *SimConn) wake() {
 	}
 }
 
-// Write queues one record for the harness to deliver; it never blocks.
+// StallWrites makes Write block (durably) from now on - the remote end has stopped reading
+// and the kernel's buffers are full - until it is called with false or this end is closed.
+func (c *SimConn) StallWrites(on bool) {
+	c.mu.Lock()
+	defer c.mu.Unlock()
+	if on && c.stall == nil {
+		c.stall = make(chan struct{})
+	}
+	if !on && c.stall != nil {
+		close(c.stall)
+		c.stall = nil
+	}
+}
+
+// Write queues one record for the harness to deliver; it does not block unless writes are
+// stalled (StallWrites).
 func (c *SimConn) Write(p []byte) (int, error) {
 	c.mu.Lock()
+	for c.stall != nil && !c.closed {
+		ch := c.stall
+		c.mu.Unlock()
+		<-ch
+		c.mu.Lock()
+	}
 	if c.closed {
 		c.mu.Unlock()
 		return 0, io.ErrClosedPipe
@@ -213,6 +235,10 @@ func (c *SimConn) Close() error {
 		return nil
 	}
 	c.closed = true
+	if c.stall != nil {
+		close(c.stall)
+		c.stall = nil
+	}
 	c.seq++
 	seq := c.seq
 	c.mu.Unlock()
